@@ -6,7 +6,7 @@ from . import core
 from .core import cq_Z, cq_bool, cq_list
 
 THEOREMS = ["C23_scalar", "C23_checked", "C23_checked_exact", "C23_repo_now_two_part",
-            "C23_scalar_symbol", "C23_scalar_symbol_refuted", "C23_in_range_partial", "C23_2d_checked", "C23_slice_refuted", "C23_slice_wrap_refuted", "C23_loop_refuted",
+            "C23_scalar_symbol", "C23_scalar_symbol_refuted", "C23_repo_head", "C23_repo_head_scalar", "C23_multi", "C23_in_range_partial", "C23_2d_checked", "C23_slice_refuted", "C23_slice_wrap_refuted", "C23_loop_refuted",
             "C23_three_part_refuted", "C23_example"]
 
 PREAMBLE = "From Coq Require Import ZArith List.\nImport ListNotations.\nFrom PV Require Import Model.C23_index.\nOpen Scope Z_scope.\n"
@@ -46,7 +46,7 @@ def ex_coq(e):
 
 def bare(u):
     """the subscript is the loop variable itself"""
-    return (u[0] in ("loop", "loop3") and u[-1] == 0) or (u[0] == "loopx" and u[3] == ["i"])
+    return (u[0] in ("loop", "loop3") and u[-1] == 0) or (u[0] in ("loopx", "loopx3") and u[-1] == ["i"])
 
 
 # ---- independent reference: Modelica subscript semantics (the property's spec) ---------------
@@ -84,6 +84,11 @@ def spec(n, u):
         sel = [(i + u[4], i) for i in r]
     elif k == "loopx":
         sel = [(ev(u[3], i), i) for i in mrange(u[1], 1, u[2])]
+    elif k == "loopx3":
+        r = mrange(u[1], u[2], u[3])
+        if r is None:
+            return ("err", "zero step")
+        sel = [(ev(u[4], i), i) for i in r]
     else:
         raise ValueError(u)
     bad = [e for e, _ in sel if not 1 <= e <= n]
@@ -93,13 +98,25 @@ def spec(n, u):
 
 
 def is_loop(u):
-    return u is not None and u[0] in ("loop", "loop3", "loopx")
+    return u is not None and u[0] in ("loop", "loop3", "loopx", "loopx3")
 
 
 def expected(case):
     """-> ('err', why, dim) | ('ok', rows) with rows = list of [r, c, rhs]; ordered for 1-D, sorted for 2-D."""
     if case.get("scalar"):
         return ("err", "subscript on a scalar", 0)
+    if case.get("multi"):
+        # consecutive for-equations: each loop judged on its own; rows in loop order, rhs = i + 30*j
+        pos, other = case.get("pos"), case.get("other")
+        n = case["n"] if pos in (None, 0) else case["m"]
+        rows = []
+        for j, u in enumerate(case["multi"]):
+            sp = spec(n, u)
+            if sp[0] == "err":
+                return ("err", "loop %d: %s" % (j + 1, sp[1]), 0)
+            for e, i in sp[1]:
+                rows.append([e, 1, i + 30 * j] if pos is None else ([e, other, i + 30 * j] if pos == 0 else [other, e, i + 30 * j]))
+        return ("ok", rows)
     n, m, u, v = case["n"], case.get("m"), case["u"], case.get("v")
     s1 = spec(n, u)
     if v is None:
@@ -133,10 +150,12 @@ def outside(n, u):
 
 
 def tag_of(case, dim=None):
+    if case.get("multi"):
+        return "consecutive-loops"
     if case.get("scalar"):
         return TAG_SCALAR_LOOP if bare(case["u"]) else "subscript-on-scalar"
     subs = [(case["n"], case["u"])] + ([(case["m"], case["v"])] if case.get("v") is not None else [])
-    if any(u[0] in ("sl3", "loop3") for _, u in subs):
+    if any(u[0] in ("sl3", "loop3", "loopx3") for _, u in subs):
         return TAG_THREE
     order = subs if dim is None else [subs[dim]] + subs
     for n, u in order:
@@ -165,7 +184,7 @@ def judge(case, res):
                 "legal subscript %s rejected with %s: %s"
                 % (show(case), res["exc"], res.get("msg", "")[:120]))
     rows = res["sel"]
-    got = rows if case.get("v") is None else sorted(rows)
+    got = rows if (case.get("v") is None or case.get("multi")) else sorted(rows)
     if exp[0] == "err":
         return (tag_of(case, exp[2]), "%s is out of range (%s) but generation succeeded and selected %s"
                 % (show(case), exp[1], [r[:2] for r in rows] or "nothing (the equation disappears)"))
@@ -193,8 +212,8 @@ def sub_text(u):
         return "%s:%s" % (lit(u[1], None), lit(u[2], None))
     if k == "sl3":
         return "%s:%s:%s" % (lit(u[1], None), lit(u[2], None), lit(u[3], None))
-    if k == "loopx":
-        return ex_text(u[3])
+    if k in ("loopx", "loopx3"):
+        return ex_text(u[-1])
     off = u[-1]
     return "i" if off == 0 else ("i+%d" % off if off > 0 else "i-%d" % -off)
 
@@ -224,9 +243,22 @@ def render_scalar(case):
     return "%smodel M\n  %s\nequation\n%s\nend M;\n" % (classes, decl, eq), [], target
 
 
+def render_multi(case):
+    pos, other = case.get("pos"), case.get("other")
+    dims = [case["n"]] if pos is None else [case["n"], case["m"]]
+    eqs = []
+    for j, u in enumerate(case["multi"]):
+        t = sub_text(u)
+        ref = "x[%s]" % (t if pos is None else ("%s, %d" % (t, other) if pos == 0 else "%d, %s" % (other, t)))
+        eqs.append("  for i in %s loop\n    %s = i%s;\n  end for;" % (loop_text(u), ref, "+%d" % (30 * j) if j else ""))
+    return "model M\n  Real x[%s];\nequation\n%s\nend M;\n" % (", ".join(map(str, dims)), "\n".join(eqs)), dims
+
+
 def render(case):
     if case.get("scalar"):
         return render_scalar(case)[:2]
+    if case.get("multi"):
+        return render_multi(case)
     n, m, u, v = case["n"], case.get("m"), case["u"], case.get("v")
     dims = [n] if v is None else [n, m]
     subs = [u] if v is None else [u, v]
@@ -329,7 +361,46 @@ def dedup(cases):
 
 
 def is_zero_step(u):
-    return (u[0] == "sl3" and (u[2] == 0 or u[3] == 0)) or (u[0] == "loop3" and (u[2] == 0 or u[3] == 0))
+    return u[0] in ("sl3", "loop3", "loopx3") and (u[2] == 0 or u[3] == 0)
+
+
+def multi_cases(rng, sizes, count, count2d):
+    """two or three consecutive for-equations over the same index name with the same subscript expression,
+    equal start and iteration count but different steps (and stops)"""
+    i = ["i"]
+    out = []
+    while len(out) < count + count2d:
+        n = rng.choice([x for x in sizes if x >= 2] or [3])
+        k = rng.choice([2, 2, 3])                      # iterations
+        a = rng.choice([0, 1, 1, 2])
+        nl = rng.choice([2, 2, 3])
+        steps = rng.sample([1, 2, 3], nl)
+        if rng.random() < 0.3:
+            steps = [steps[0]] * nl                    # same step, different slack in stop
+        fam = rng.random()
+        c = rng.randint(0, n + 2)
+        if fam < 0.35:
+            e = ["add", i, ["c", c % 3]] if rng.random() < 0.5 else ["sub", i, ["c", 1 + c % 2]]
+        elif fam < 0.7:
+            e = ["sub", ["c", c + 1], i]
+        else:
+            e = ["sub", ["mul", ["c", 2], i], ["c", c % 4]]
+        loops = []
+        for st in steps:
+            stop = a + (k - 1) * st + (rng.randrange(st) if rng.random() < 0.4 else 0)
+            loops.append(["loopx", a, stop, e] if st == 1 else ["loopx3", a, st, stop, e])
+        case = {"n": n, "multi": loops}
+        if len(out) >= count:
+            m = rng.choice(sizes)
+            pos = rng.randrange(2)
+            case = {"n": n if pos == 0 else m, "m": m if pos == 0 else n, "multi": loops, "pos": pos,
+                    "other": rng.randint(1, m)}
+        out.append(case)
+    return out
+
+
+def neg_step_slices(n):
+    return [["sl3", a, st, b] for a in range(-1, n + 3) for st in (-1, -2) for b in range(-2, n + 2)]
 
 
 def gen_cases(ctx, cfg=None):
@@ -342,7 +413,7 @@ def gen_cases(ctx, cfg=None):
             cases.append({"n": n, "u": u})
         L = dedup([{"n": n, "u": u} for u in loops_1d(n)])
         rng.shuffle(L)
-        cases += L[:ctx.scaled(45, 400)]
+        cases += L[:ctx.scaled(40, 400)]
         T = dedup([{"n": n, "u": u} for u in three_1d(n)])
         if cfg and cfg.get("mod3"):
             # start:step:stop with a negative (non-literal) step is evaluated by get_integer in the repaired tree
@@ -352,24 +423,34 @@ def gen_cases(ctx, cfg=None):
         cases += T[:ctx.scaled(30, 500)]
         X = [{"n": n, "u": u} for u in loopx_1d(n)]
         rng.shuffle(X)
-        cases += X[:ctx.scaled(35, 300)]
+        cases += X[:ctx.scaled(30, 300)]
     # subscripts on scalars (plain, scalar member of a component array, scalar component): all of them
     cases += scalar_cases()
+    if cfg and cfg.get("mod3"):
+        # descending constant slices start:step:stop incl. stop <= 0 and start > n: the whole window
+        for n in ctx.scaled([2, 3], [1, 2, 3, 4]):
+            cases += [{"n": n, "u": u} for u in neg_step_slices(n)]
+        cases += multi_cases(rng, sizes, ctx.scaled(50, 700), ctx.scaled(16, 200))
     # 2-D without a loop: scalar / colon / slice in both positions
     two = []
     for n, m in itertools.product(ctx.scaled([1, 2, 3], [1, 2, 3, 4]), repeat=2):
         W1 = window_1d(n, 1) + [["int", -2], ["int", n + 2], ["sl", -2, n], ["sl", 1, n + 2]]
         W2 = window_1d(m, 1) + [["int", -2], ["int", m + 2], ["sl", -2, m], ["sl", 1, m + 2]]
-        for _ in range(ctx.scaled(26, 300)):
+        for _ in range(ctx.scaled(22, 300)):
             u, v = rng.choice(W1), rng.choice(W2)
             if rng.random() < 0.08:
                 u = rng.choice(three_1d(n, 1)[: (n + 3) ** 3])
+            elif cfg and cfg.get("mod3") and rng.random() < 0.2:
+                if rng.random() < 0.5:
+                    u = rng.choice(neg_step_slices(n))
+                else:
+                    v = rng.choice(neg_step_slices(m))
             two.append({"n": n, "m": m, "u": u, "v": v})
     # 2-D with the loop variable in one position; the other position a scalar (any), ':' or a
     # non-empty in-range slice (an empty other dimension makes the generator skip the loop mapping
     # altogether, a different mechanism)
     for n, m in itertools.product(ctx.scaled([1, 2, 3], [1, 2, 3, 4]), repeat=2):
-        for _ in range(ctx.scaled(28, 250)):
+        for _ in range(ctx.scaled(24, 250)):
             pos = rng.randrange(2)
             dl, do = (n, m) if pos == 0 else (m, n)
             lp = rng.choice(loops_1d(dl))
@@ -391,6 +472,8 @@ def gen_cases(ctx, cfg=None):
     cases += two
     cases = dedup(cases)
     for c in cases:
+        if c.get("multi"):
+            continue
         if is_zero_step(c["u"]) or (c.get("v") is not None and is_zero_step(c["v"])):
             c["malformed"] = True
     return cases
@@ -439,6 +522,8 @@ def enc_sub(u):
         return "Colon"
     if k == "loopx":
         return "(LoopX %s %s %s)" % (cq_Z(u[1]), cq_Z(u[2]), ex_coq(u[3]))
+    if k == "loopx3":
+        return "(LoopX3 %s %s %s %s)" % (cq_Z(u[1]), cq_Z(u[2]), cq_Z(u[3]), ex_coq(u[4]))
     name = {"sl": "Sl", "sl3": "Sl3", "loop": "LoopV", "loop3": "LoopV3"}[k]
     return "(%s %s)" % (name, " ".join(cq_Z(x) for x in u[1:]))
 
@@ -448,10 +533,13 @@ def encode(case, res):
         kind, sel = (1 if res["exc"] == "ValueError" else 2), []
     else:
         kind = 0
-        if case.get("scalar") or case.get("v") is None:
+        if case.get("scalar") or case.get("multi") or case.get("v") is None:
             sel = [r[0] for r in res["sel"]]
         else:
             sel = sorted(r[0] * 100 + r[1] for r in res["sel"])
+    if case.get("multi"):
+        return "(%s, %s, %s, %s)" % (cq_Z(case["n"]), cq_list([enc_sub(u) for u in case["multi"]]), cq_Z(kind),
+                                     cq_list([cq_Z(x) for x in sel]))
     if case.get("scalar"):
         k = {"plain": 1, "member": 1, "component": 3}[case["scalar"]]   # size1() of what the loop variable indexes
         return "(%s, %s, %s, %s)" % (cq_Z(k), enc_sub(case["u"]), cq_Z(kind), cq_list([cq_Z(x) for x in sel]))
@@ -504,7 +592,10 @@ def run(ctx):
     nontrivial = set()
     harness_bad = []
     for c, r in zip(cases, results):
-        dist[c["u"][0]] += 1
+        if c.get("multi"):
+            dist["consecutive_loops"] = dist.get("consecutive_loops", 0) + 1
+            c = dict(c, u=c["multi"][0])
+        dist[c["u"][0]] = dist.get(c["u"][0], 0) + 1
         if c.get("scalar"):
             dist["on_scalar"] += 1
         if c.get("v") is not None:
@@ -519,15 +610,20 @@ def run(ctx):
                 harness_bad.append((c, r))
             core.report(ctx, why[0], why[1], {"input": c, "model_source": render(c)[0], "observed": r})
         if e[0] == "err" or len(e[1]) >= 1:
-            nontrivial.add(json.dumps([c.get("scalar"), c.get("n"), c.get("m"), c["u"], c.get("v")]))
+            nontrivial.add(json.dumps([c.get("scalar"), c.get("n"), c.get("m"), c["u"], c.get("v"), c.get("multi"), c.get("pos"), c.get("other")]))
     # (b) correspondence, inside Coq
-    idx = [i for i, r in enumerate(results) if ("sel" in r or "exc" in r) and not cases[i].get("scalar")]
+    idx = [i for i, r in enumerate(results) if ("sel" in r or "exc" in r) and not cases[i].get("scalar") and not cases[i].get("multi")]
+    # consecutive for-equations: 1-D ones go through the model, the 2-D variants are judged by the oracle only
+    midx = [i for i, r in enumerate(results) if ("sel" in r or "exc" in r) and cases[i].get("multi") and cases[i].get("pos") is None]
     sidx = [i for i, r in enumerate(results) if ("sel" in r or "exc" in r) and cases[i].get("scalar")]
     bad = core.coq_eval_cases(ctx, "idx", PREAMBLE, "Z * sub * option (Z * sub) * Z * list Z",
                               [encode(cases[i], results[i]) for i in idx], "check_case %s" % cfg_term(cfg), shard=200)
     sbad = core.coq_eval_cases(ctx, "scalar", PREAMBLE, "Z * sub * Z * list Z",
                                [encode(cases[i], results[i]) for i in sidx], "check_scalar %s" % cfg_term(cfg), shard=400)
-    mism = None if (bad is None or sbad is None) else [idx[j] for j in bad] + [sidx[j] for j in sbad]
+    mbad = core.coq_eval_cases(ctx, "multi", PREAMBLE, "Z * list sub * Z * list Z",
+                               [encode(cases[i], results[i]) for i in midx], "check_multi %s" % cfg_term(cfg), shard=400)
+    mism = None if (bad is None or sbad is None or mbad is None) else ([idx[j] for j in bad] + [sidx[j] for j in sbad]
+                                                                       + [midx[j] for j in mbad])
     ctx.oblige("correspondence:model-vs-get_indexed_symbol+ForLoop", mism == [] and not harness_bad,
                "cfg=%s; mismatching: %s" % (cfg, [(show(cases[i]), results[i]) for i in (mism or [])[:6]]))
     if mism and not [v for v in ctx.violations if not v["no_input"]]:
@@ -544,7 +640,9 @@ def run(ctx):
     ctx.cov["rule"] = ("generated Modelica models `Real x[n]` / `Real x[n,m]` with one equation or for-equation whose "
                        "subscripts come from: every scalar and two-part slice with bounds in [-2,n+2] (1-D, exhaustive), "
                        "samples of for-loops with offsets and with non-affine index expressions (k-i, 2*i-k, (i-k)*(i-k), i*i-k), three-part ranges, "
-                       "2-D combinations, and every subscript form on scalar symbols (plain, member of a component array, component); distinct by "
+                       "2-D combinations, every subscript form on scalar symbols (plain, member of a component array, component), the whole window of "
+                       "descending constant slices a:-1|-2:b, and models with two or three consecutive for-equations sharing the subscript "
+                       "expression, start and iteration count but not the step; distinct by "
                        "(n, m, subscripts); non-trivial = expected error or a non-empty selection; corpus %d" % n_corpus)
     ctx.cov["samples"] = [show(cases[n_corpus + 5]), show(cases[len(cases) // 2]), show(cases[-1])]
     ctx.notes["input_distribution"] = dist
